@@ -10,8 +10,9 @@ LOGICS = ["QF_BOOL", "QF_UF", "QF_LRA", "QF_LIA", "QF_UFLRA"]
 
 def make_script(idx, seed, minimal, full):
     rng = random.Random(f"c06-{seed}-{idx}-{minimal}-{full}")
-    logic = LOGICS[idx % len(LOGICS)]
-    p = RichProblem(logic, rng) if idx % 3 == 0 else gen.Problem(logic, rng)
+    clausal = idx % 2 == 1
+    logic = LOGICS[idx % len(LOGICS)] if not clausal else "QF_BOOL"
+    p = RichProblem(logic, rng) if idx % 3 == 0 else gen.Problem(logic, rng, nbool=4 if clausal else 3)
     opts = [":print-success true", ":produce-unsat-cores true"]
     if minimal:
         opts.append(":minimal-unsat-cores true")
@@ -19,34 +20,130 @@ def make_script(idx, seed, minimal, full):
         opts.append(":print-cores-full true")
     lines = [f"(set-option {o})" for o in opts] + [p.set_logic()] + p.decls
     nm = 0
-    stack = [[]]                      # entries: (smt text, name or None)
+    stack = [[]]                      # entries: (smt text without inner annotations, name or None)
     checks = []                       # per check: list of active (text, name)
+    nested = {}                       # names given to sub-terms: name -> text of the sub-term
+
+    def small():
+        """unit, clause or implication over the Boolean variables: refutations by propagation, redundant members"""
+        lits = [gen.smt(b) if rng.random() < 0.5 else f"(not {gen.smt(b)})" for b in rng.sample(p.bools, rng.randint(1, 3))]
+        c = rng.random()
+        if len(lits) == 1 or c < 0.35:
+            return lits[0]
+        if c < 0.8:
+            return "(or " + " ".join(lits) + ")"
+        if c < 0.9:
+            return f"(=> {lits[0]} {lits[1]})"
+        return f"(or {lits[0]} (and " + " ".join(lits[1:] + [lits[0]]) + "))"
+
+    def check():
+        lines.append("(check-sat)"); lines.append("(get-unsat-core)")
+        checks.append([x for fr in stack for x in fr])
+
+    def add(t, named=True):
+        nonlocal nm
+        if named:
+            nm += 1
+            lines.append(f"(assert (! {t} :named A{nm}))"); stack[-1].append((t, f"A{nm}"))
+        else:
+            lines.append(f"(assert {t})"); stack[-1].append((t, None))
+
     for _ in range(rng.randint(8, 20)):
         c = rng.random()
-        if c < 0.12:
+        if clausal and rng.random() < 0.1:
+            # a clause, then units that falsify its literals one by one, each in a deeper scope: the refutation is found by
+            # propagation from the scope assumptions, through a reason clause that holds a literal already false at the base level
+            vs = rng.sample(p.bools, 3)
+            ls = [gen.smt(b) if rng.random() < 0.5 else f"(not {gen.smt(b)})" for b in vs]
+            neg = lambda l: l[5:-1] if l.startswith("(not ") else f"(not {l})"
+            add("(or " + " ".join(ls) + ")", rng.random() < 0.8)
+            add(neg(ls[0]), rng.random() < 0.8)
+            for l in ls[1:]:
+                lines.append("(push 1)"); stack.append([])
+                add(neg(l), rng.random() < 0.8)
+            check()
+            continue
+        named_now = [x for fr in stack for x in fr if x[1]]
+        if named_now and not full and rng.random() < 0.08:
+            # the term of a named assertion gets a second name inside a scope that is popped again
+            inner = rng.choice(named_now)[0]
+            other = small() if clausal else gen.smt(rng.choice(p.bools))
             lines.append("(push 1)"); stack.append([])
-        elif c < 0.22 and len(stack) > 1:
+            nm += 1
+            nested[f"A{nm}"] = inner
+            lines.append(f"(assert (! (or (! {inner} :named A{nm}) {other}) :named A{nm + 1}))")
+            nm += 1
+            stack[-1].append((f"(or {inner} {other})", f"A{nm}"))
+            if rng.random() < 0.5:
+                check()
             lines.append("(pop 1)"); stack.pop()
-        elif c < 0.8:
-            t = gen.smt(p.fla(rng.randint(0, 2)))
+            continue
+        if c < 0.14:
+            lines.append("(push 1)"); stack.append([])
+        elif c < 0.24 and len(stack) > 1:
+            lines.append("(pop 1)"); stack.pop()
+        elif c < (0.86 if clausal else 0.8):
+            t = small() if clausal else gen.smt(p.fla(rng.randint(0, 2)))
+            everything = [x for fr in stack for x in fr]
             if stack[-1] and rng.random() < 0.12:
                 t = rng.choice(stack[-1])[0]              # re-assert an earlier formula
+            shown = t
+            if everything and rng.random() < 0.12 and not full:
+                # an existing assertion term gets a second name as a sub-term of a new assertion
+                nm += 1
+                inner = rng.choice(everything)[0]
+                other = small() if clausal else gen.smt(rng.choice(p.bools))
+                t, shown = f"(or {inner} {other})", f"(or (! {inner} :named A{nm}) {other})"
+                nested[f"A{nm}"] = inner
             if rng.random() < 0.7:
                 nm += 1
-                lines.append(f"(assert (! {t} :named A{nm}))"); stack[-1].append((t, f"A{nm}"))
+                lines.append(f"(assert (! {shown} :named A{nm}))"); stack[-1].append((t, f"A{nm}"))
             else:
-                lines.append(f"(assert {t})"); stack[-1].append((t, None))
+                lines.append(f"(assert {shown})"); stack[-1].append((t, None))
         else:
-            lines.append("(check-sat)"); lines.append("(get-unsat-core)")
-            checks.append([x for fr in stack for x in fr])
-    lines.append("(check-sat)"); lines.append("(get-unsat-core)")
-    checks.append([x for fr in stack for x in fr])
+            check()
+    check()
+    p.nested_names = nested
     return p, "\n".join(lines) + "\n", checks
+
+
+def strip_names(text):
+    """the term without (! t :named n) annotations"""
+    def go(x):
+        if isinstance(x, list):
+            if x and smtlib.sym(x[0]) == "!":
+                return go(x[1])
+            return [go(y) for y in x]
+        return x
+    return smtlib.unparse(go(smtlib.parse_sexps(text)[0]))
+
+
+def inner_names(text, out):
+    """names given to proper sub-terms of the assertion body `text`"""
+    def go(x, top):
+        if isinstance(x, list):
+            if x and smtlib.sym(x[0]) == "!":
+                if not top:
+                    for j in range(2, len(x) - 1):
+                        if x[j] == ("sym", ":named"):
+                            out[smtlib.sym(x[j + 1])] = strip_names(smtlib.unparse(x[1]))
+                go(x[1], False)
+            else:
+                for y in x:
+                    go(y, False)
+    go(smtlib.parse_sexps(text)[0], True)
 
 
 def checks_from_script(script):
     """active (text, name) lists per check-sat, for scripts in the one-command-per-line format used here"""
     stack, checks, decls, logic_line = [[]], [], [], None
+    checks_from_script.nested = {}
+    for l in script.strip().split("\n"):
+        if l.startswith("(assert "):
+            try:
+                inner_names(l[len("(assert "):-1], checks_from_script.nested)
+            except Exception:
+                pass
     for l in script.strip().split("\n"):
         if l.startswith("(set-logic"):
             logic_line = l
@@ -58,9 +155,9 @@ def checks_from_script(script):
             stack.pop()
         elif l.startswith("(assert (! "):
             body, name = l[len("(assert (! "):-2].rsplit(" :named ", 1)
-            stack[-1].append((body, name))
+            stack[-1].append((strip_names(body), name))
         elif l.startswith("(assert "):
-            stack[-1].append((l[len("(assert "):-1], None))
+            stack[-1].append((strip_names(l[len("(assert "):-1]), None))
         elif l == "(check-sat)":
             checks.append([x for fr in stack for x in fr])
     return decls, logic_line, checks
@@ -76,6 +173,7 @@ def run_case(args):
         script = open(idx).read()
         d, ll, checks = checks_from_script(script)
         p = _P(); p.decls = d; p.logic = "corpus"; p.set_logic = lambda ll=ll: ll
+        p.nested_names = dict(checks_from_script.nested)
     else:
         p, script, checks = make_script(idx, seed, minimal, full)
     tp = common.WORK / f"c06-{os.getpid()}.trace"
@@ -163,7 +261,10 @@ def run_case(args):
                 res["problems"].append({"what": f"check #{k}: core repeats a name: {names}"})
             stale = [n for n in names if n not in cur]
             if stale:
-                res["problems"].append({"what": f"check #{k}: core names assertions that are not on the stack: {stale}"}); continue
+                nn = getattr(p, "nested_names", {})
+                texts = {t for t, _ in active}
+                res["problems"].append({"what": f"check #{k}: core names assertions that are not on the stack: {stale}",
+                                        "nested_name_of_assertion_term": all(n in nn and nn[n] in texts for n in stale)}); continue
             members = [cur[n] for n in names]
             background = [t for t, n in active if n is None]
         else:
@@ -225,6 +326,8 @@ def classify(pr, res):
         return "duplicate-assertion-term"
     if pr.get("popped_twin_terms"):
         return "popped-twin-term"
+    if pr.get("nested_name_of_assertion_term"):
+        return "nested-name-of-assertion-term"
     return None
 
 
